@@ -33,6 +33,10 @@ func TestSim(t *testing.T) {
 		p := GenPlan(rt, prop) // drawn completely before the bubble exists
 		v, info := Run(tt, p, logOn)
 		if logOn {
+			if os.Getenv("VERIF_EVENTLOG_PLANS") != "" {
+				pb, _ := json.Marshal(p)
+				logw.WriteString("PLAN " + string(pb) + "\n")
+			}
 			logw.WriteString("RUN\n" + strings.Join(info.log, "\n") + "\n")
 		}
 		verifh.RunDone(info.nontriv, p)
